@@ -178,6 +178,8 @@ def encrypt(protected, plaintext, recipients, unprotected=None, aad=None, form="
             z = ecdh_z(rec["epk_priv"], key)
             rec["ek"] = aes_kw_wrap(_agree(alg, mode, merged_of(rec), enc, z), cek)
     # protected header is final now
+    if callable(protected_json):
+        protected_json = protected_json(protected)
     if protected_json is not None:
         if json.loads(protected_json) != protected:
             raise RefError("protected_json does not spell the protected header: %r vs %r" % (protected_json, protected))
